@@ -132,6 +132,9 @@ def storeStep (st : StoreState) (ws : List String) : StoreState × String × Str
   | [] => same st "bad-op"
 
 def storeStep' (st : StoreState) (ws : List String) : StoreState × String × String :=
+  -- `txnrot`: a transaction during which (between its WAL append and its apply) the memtable is rotated and the
+  -- rotated one flushed by someone else: for the specification an ordinary committed transaction
+  let ws := match ws with | "txnrot" :: r => "txn" :: r | _ => ws
   let (st', m, sp) := storeStep st ws
   -- `lastTxn` survives only the transaction that set it
   let keep := match ws with | "txn" :: _ => true | _ => false
